@@ -184,7 +184,7 @@ Proof.
   intros. unfold pass3, images_of, mapi. rewrite flat_map_concat_mapi. f_equal.
   apply mapi_from_ext. intros r row. unfold paint_images_row, images_row, mapi.
   rewrite flat_map_concat_mapi. f_equal. apply mapi_from_ext. intros c x.
-  destruct (ckind (resolve o x)); simpl; auto. rewrite app_nil_r. reflexivity.
+  destruct (ckind (resolve o x)); simpl; auto. rewrite app_nil_r. symmetry. apply image_cmds_paint_image.
 Qed.
 
 Lemma in_images_of : forall o s r c f i,
